@@ -139,7 +139,7 @@ int main(int argc, char** argv){
             fclose(stderr); stderr = fopen("/dev/null","w");
             // observation 1: open
             struct reb_simulationarchive* sa = reb_simulationarchive_create_from_file(img);
-            long nb = 0; int err = 1;
+            long nb = 0; int err = 1; int past = 0;
             fprintf(o,"\"dig\":[");
             if (sa && sa->inf && sa->nblobs>0){
                 nb = sa->nblobs; err = 0;
@@ -148,9 +148,12 @@ int main(int argc, char** argv){
                     fprintf(o,"%s\"%016llx\"", j?",":"", s ? (unsigned long long)digest(s) : 0ULL);
                     if (s) reb_simulation_free(s);
                 }
+                // asking for the snapshot one past the last exposed one (the half-written one) must be refused
+                struct reb_simulation* sp = reb_simulation_create_from_simulationarchive(sa,nb);
+                if (sp){ past = 1; reb_simulation_free(sp); }
                 reb_simulationarchive_free(sa);
             }
-            fprintf(o,"],\"n\":%ld,\"err\":%d,", nb, err);
+            fprintf(o,"],\"past\":%d,\"n\":%ld,\"err\":%d,", past, nb, err);
             fflush(o);
             // observation 2: restart from the last exposed snapshot and run to the end
             long rn = -1;
